@@ -100,7 +100,15 @@ class SigmaConversionError(SigmaError):
         super().__init__(*args, source=source, **kwargs)
 
     def __str__(self) -> str:
-        return super().__str__() + " in rule " + str(self.rule)
+        # The rule is named by title and identifier. Its full representation contains sets (in
+        # hash order) and the names of detections added under random names by filters and
+        # pipelines, it differs from process to process.
+        rule_id = getattr(self.rule, "id", None)
+        return (
+            super().__str__()
+            + f" in rule '{getattr(self.rule, 'title', None)}'"
+            + (f" ({rule_id})" if rule_id is not None else "")
+        )
 
 
 class SigmaDetectionError(SigmaError):
